@@ -2,6 +2,9 @@
 //! imap-proto / tokio-imap code on generated inputs and prints canonical result lines.
 mod bodystruct;
 mod builder;
+mod dump;
+mod genresp;
+mod parse;
 mod mockio;
 mod tags;
 mod util;
@@ -14,6 +17,7 @@ fn main() {
     }
     match args[1].as_str() {
         "tags" => tags::main(&args[2..]),
+        "parse" => parse::main(&args[2..]),
         "builder" => builder::main(&args[2..]),
         "bodystruct" => bodystruct::main(&args[2..]),
         c => {
